@@ -19,7 +19,7 @@ def run(ctx):
     if not ctx.translate():
         return
     ok = ctx.prove(MODULES)
-    res = fw.corr(ctx, "govtally", 160 if ctx.thorough() else 40)
+    res = fw.corr(ctx, "govtally", 1200 if ctx.thorough() else 40)
     fw.report_corr(ctx, "govtally", res, known_features)
     if res is not None:
         st = res["stats"]
